@@ -186,6 +186,24 @@ fn main() {
         let w = 1 + (k as u32 % 7);
         run_case(&mut rec, &json!({"d": {"kind":"prim","shape":{"k":"line","s":[a.0, a.1],"e":[b.0, b.1]},"style":style_desc(-1, col.stroke, w, 1)}, "by": [by.0, by.1]}));
     }
+    // triangles and polylines very far from the origin.  Without a stroke (fill only, points()) and with a 1 px polyline
+    // (drawn with Bresenham lines) this works up to +-2 * 10^9.  With joins (stroked triangles, polylines of width >= 2)
+    // the library multiplies absolute coordinates with edge vectors in i32 (LinearEquation::from_line): the open
+    // known finding D29.
+    for (k, by) in [(300_000_000, 200_000_000), (-2_000_000_000, 1_500_000_000), (100_000_000, -70_000_000), (60_000_000, 60_000_000)].iter().enumerate() {
+        let tri = json!({"k":"triangle","v":[[0, 0], [30, -11], [7, 25]]});
+        let poly = json!({"k":"polyline","v":[[0, 0], [0, 30], [-30, 30], [-12, -5]],"off":[0, 0]});
+        for (shape, style) in [
+            (tri.clone(), style_desc(col.fill, -1, 0, 1)),
+            (tri.clone(), style_desc(col.fill, col.stroke, 0, (k % 3) as u32)),
+            (poly.clone(), style_desc(-1, col.stroke, 1, 1)),
+            (tri.clone(), style_desc(-1, col.stroke, 1, 1)),
+            (tri.clone(), style_desc(col.fill, col.stroke, 3, (k % 3) as u32)),
+            (poly.clone(), style_desc(-1, col.stroke, 3, 1)),
+        ] {
+            run_case(&mut rec, &json!({"d": {"kind":"prim","shape":shape,"style":style}, "by": [by.0, by.1]}));
+        }
+    }
     // nearly parallel joints (segments with almost the same or the opposite direction) of thick polylines and
     // triangles, moved to negative coordinates: the join falls back to edge end points there
     for k in 0..(if th { 30_000 } else { 2_500 }) {
